@@ -45,6 +45,12 @@ FuzzMonotone == ph = 2 => \A dir \in Dirs : \A l1 \in Lims : \A l2 \in Lims :
     (l1 < l2 /\ PlaceRef(F, h, dir, l1, 0, -1).ok) =>
        PlaceRef(F, h, dir, l2, 0, -1) = PlaceRef(F, h, dir, l1, 0, -1)
 
+\* the trimming arithmetic proved for all naturals in TrimLemma.tla (TLAPS) is the one View uses
+TSat(a, b) == IF a > b THEN a - b ELSE 0
+TrimAgrees == ph = 2 => \A dir \in Dirs : \A g \in 0..(MaxLimit + 1) :
+    LET v == View(h, dir, g)  p == Len(h.pre)  s == Len(h.post)  rem == TSat(Max2(p, s), g)
+    IN v.pf = TSat(p, rem) /\ v.sf = TSat(s, rem) /\ v.pre = p - v.pf /\ v.post = s - v.sf
+
 Run(dir, lim) == LET rs == ReportsRef(F, <<h>>, dir, lim)
                  IN [dir |-> dir, lim |-> lim,
                      rep |-> [i \in 1..Len(rs) |-> [ok |-> rs[i].ok, line |-> rs[i].line, fuzz |-> rs[i].fuzz]],
